@@ -10,6 +10,7 @@ import Model.Proto.Pair
 import Model.Proto.Push
 import Model.Proto.Pull
 import Model.Proto.Rep
+import Model.Proto.Mesh
 import Generated.Facts
 open Model Model.Proto
 namespace Driver.Machines
@@ -34,6 +35,7 @@ structure State where
   push : List Push.State := [Push.init]
   pull : List Pull.State := [Pull.init]
   rep : List Rep.State := [Rep.init .rep Generated.hop_rep]
+  mesh : List Mesh.State := [Mesh.init .bus Generated.hop_xstar_drop]
   stuck : Bool := false      -- after a disagreement the scenario is abandoned until the next `new`
 
 /-- returns (new state, agrees?, expected rendering, branch) or none for an unknown tag -/
@@ -46,6 +48,13 @@ def step (s : State) (tag : String) (args : List String) (o : String) : Option (
     | "m.pair" => some ({ s with pair := [Pair.init], stuck := false }, true, "-", "new")
     | "m.push" => some ({ s with push := [Push.init], stuck := false }, true, "-", "new")
     | "m.pull" => some ({ s with pull := [Pull.init], stuck := false }, true, "-", "new")
+    | "m.mesh" =>
+      let f := match args.getD 1 "" with
+        | "bus" => Mesh.Flavor.bus
+        | "xbus" => Mesh.Flavor.xbus
+        | "star" => Mesh.Flavor.star
+        | _ => Mesh.Flavor.xstar
+      some ({ s with mesh := [Mesh.init f Generated.hop_xstar_drop], stuck := false }, true, "-", "new")
     | "m.rep" =>
       let st := match args.getD 1 "" with
         | "rep" => Rep.init .rep Generated.hop_rep
@@ -74,6 +83,9 @@ def step (s : State) (tag : String) (args : List String) (o : String) : Option (
   | "m.rep" =>
     let (cs, exp) := advance s.rep Rep.step args o
     if cs.isEmpty then some ({ s with stuck := true }, false, exp, opName) else some ({ s with rep := cs }, true, o, opName)
+  | "m.mesh" =>
+    let (cs, exp) := advance s.mesh Mesh.step args o
+    if cs.isEmpty then some ({ s with stuck := true }, false, exp, opName) else some ({ s with mesh := cs }, true, o, opName)
   | _ => none
 
 end Driver.Machines
